@@ -856,14 +856,23 @@ def e2e_part(ctx, opts=("-O0", "-O2")):
     src = open(os.path.join(H, "e2e", "main.go.txt")).read()
     d = os.path.join(ctx.scratch, "e2e-c10")
     e2e.write_module(d, {"main.go": src})
-    refbin = os.path.join(d, "ref.bin")
-    p = e2e.go_run_reference(ctx, d, refbin)
-    if p.returncode != 0:
-        raise HarnessBuildError("reference build of the C10 e2e program failed: " + (p.stdout + p.stderr)[-2000:])
-    _, referr, rc = e2e.run_prog(refbin, timeout=60)
-    expected = [l for l in referr.split("\n") if l]
+    t_start = time.time()
+    stored = [l for l in open(os.path.join(H, "e2e", "expected.txt")).read().split("\n") if l]
+    if len(opts) > 1:
+        # thorough: the stored expectation is re-derived from the reference Go toolchain
+        refbin = os.path.join(d, "ref.bin")
+        p = e2e.go_run_reference(ctx, d, refbin)
+        if p.returncode != 0:
+            raise HarnessBuildError("reference build of the C10 e2e program failed: " + (p.stdout + p.stderr)[-2000:])
+        _, referr, rc = e2e.run_prog(refbin, timeout=60)
+        expected = [l for l in referr.split("\n") if l]
+        if expected != stored:
+            ctx.log("note: harness/c10/e2e/expected.txt differs from the reference Go toolchain's output; using the latter")
+    else:
+        expected = stored
     cut = expected.index("begin sendThenClose")
     e2e.build_llgo(ctx)
+    t_llgo = time.time()
     obs = {}
     for opt in opts:
         out = os.path.join(d, "prog%s.bin" % opt)
@@ -895,4 +904,4 @@ def e2e_part(ctx, opts=("-O0", "-O2")):
             ctx.report("e2e:pingPongOneChannel:" + opt, "wrong output", {"opt": opt, "got": rest[-3:], "expected": expected[-3:]})
     ctx.coverage["e2e"] = {"program": "harness/c10/e2e/main.go.txt", "sections": [l.split()[1] for l in expected if l.startswith("begin ")],
                            "observations": obs}
-    ctx.log("e2e:", obs)
+    ctx.log("e2e (llgo build %.0fs, programs %.0fs):" % (t_llgo - t_start, time.time() - t_llgo), obs)
